@@ -536,6 +536,10 @@ def model_export_to_file(f, model=None, repo=None):
         for m in repo:
             _export_subgraph(m)
             _export(m)
+        if model:
+            # a model loaded from a string is not among the models of the
+            # repository it uses
+            _export(model)
     else:
         _export(model)
 
